@@ -139,12 +139,18 @@ func runC06(p *core.Program, r *core.Report) {
 	// the strings Generate can return are exactly those the count behind Entropy() counts: whole
 	// candidates over the alphabet, kept iff they hit every required set (= C02 R2.4/R2.5 re-run;
 	// a filter that accepts fewer strings makes each of them likelier than 2^-Entropy)
-	if g, _ := resolveCharGen(p); g != nil {
+	if g, why := resolveCharGen(p); g == nil {
+		r.Unrecognised("R6.5", "(spg.CharRecipe).Generate", "generation shape", "", why)
+	} else {
 		r.Borrow("R6.5", func() {
+			checkDrawShape(p, r, g, "R2.2", "R2.3")
 			checkWholeCandidateRejection(p, r, g, "R2.4")
 			checkFilterAllOf(p, r, g, "R2.5")
 		})
 	}
+	// a separator function made by the factory reports the entropy of the very generation that
+	// produced the separator (= C16 R16.3 factory rule; a pre-computed figure is wrong when that generation fails)
+	r.Borrow("R6.2", func() { checkSeparatorFactories(p, r) })
 }
 
 // checkDrawTermAgreement: schemes with a bonus in Entropy == schemes that draw in Generate, with matching bounds.
